@@ -194,6 +194,11 @@ def build():
     for fl in ["g", "t", "a"]:
         fns.append(mk(len(fns), fl, "fifo", mem=MEMS[1], ret=3))
         fns.append(mk(len(fns), fl, "lru", mem=MEMS[5], ret=1, cache_if=True))
+    # TLRU with a frequency_weight and nothing but an entry limit, in every flavour: the weight alone decides victims (C08/C19)
+    fns.append(mk(len(fns), "a", "tlru", limit=3, fw=WEIGHTS[3]))
+    fns.append(mk(len(fns), "a", "tlru", limit=4, fw=WEIGHTS[1]))
+    fns.append(mk(len(fns), "g", "tlru", limit=3, fw=WEIGHTS[2]))
+    fns.append(mk(len(fns), "t", "tlru", limit=3, fw=WEIGHTS[3]))
     return fns
 
 
